@@ -41,37 +41,53 @@ partial def parseNode (I : Interner) (j : Json) : XNode :=
     .mk (I.qn ns loc) attrs text kids
   | _ => .mk ⟨0, 0⟩ [] [] []
 
+/-- one emitted document (or refusal / unserialisable object) as observed by the harness -/
+def docAns (I : Interner) (impl : Json) : Json :=
+  let S := Gen.Schema.schema
+  match obj? impl "tree" with
+  | none =>
+    match str? impl "emit_error" with
+    | some e =>
+      -- a message object without a string form: nothing that could validate was emitted
+      let strict := boolD impl "strict"
+      Json.mkObj [("model", Json.mkObj [("valid", false)]), ("path", "doc/unserialisable"), ("spec_model", !strict),
+        ("spec_impl", !strict), ("why", Json.str ("the created message cannot be serialised: " ++ e))]
+    | none =>
+      -- the builder refused the arguments: nothing was emitted, the property does not speak
+      Json.mkObj [("model", Json.mkObj [("valid", Json.null)]), ("path", "doc/refused"), ("spec_model", true), ("spec_impl", true)]
+  | some tj =>
+    let t := parseNode I tj
+    let res := validate S t
+    let ok := match res with | .ok _ => true | .error _ => false
+    let err := match res with | .ok _ => "" | .error e => e.toString
+    let strict := boolD impl "strict"      -- library output of a message kind the property names
+    let xsd := boolD impl "xsd"
+    let vi := boolD impl "vi" true
+    let path := if ok then (if strict then "doc/valid" else "doc/valid-unconstrained") else "doc/invalid/" ++ err
+    let specImpl := if strict then specDoc S t xsd vi else true
+    let why := if specImpl then "" else
+      (if !ok then "Lean validator: " ++ err else if !xsd then "xmlschema rejects: " ++ strD impl "xsd_err" else "valid_instance rejects: " ++ strD impl "vi_err")
+    Json.mkObj [("model", Json.mkObj [("valid", ok)]), ("path", path), ("err", err),
+      ("spec_model", !strict || ok), ("spec_impl", specImpl), ("why", why)]
+
 def handle (I : Interner) (line : Json) : Json :=
   let c := (obj? line "case").getD Json.null
   let impl := (obj? line "impl").getD Json.null
   let S := Gen.Schema.schema
   match strD c "op" with
-  | "doc" =>
-    match obj? impl "tree" with
-    | none =>
-      match str? impl "emit_error" with
-      | some e =>
-        -- a message object without a string form: nothing that could validate was emitted
-        let strict := boolD impl "strict"
-        Json.mkObj [("model", Json.mkObj [("valid", false)]), ("path", "doc/unserialisable"), ("spec_model", !strict),
-          ("spec_impl", !strict), ("why", Json.str ("the created message cannot be serialised: " ++ e))]
-      | none =>
-        -- the builder refused the arguments: nothing was emitted, the property does not speak
-        Json.mkObj [("model", Json.mkObj [("valid", Json.null)]), ("path", "doc/refused"), ("spec_model", true), ("spec_impl", true)]
-    | some tj =>
-      let t := parseNode I tj
-      let res := validate S t
-      let ok := match res with | .ok _ => true | .error _ => false
-      let err := match res with | .ok _ => "" | .error e => e.toString
-      let strict := boolD impl "strict"      -- library output of a message kind the property names
-      let xsd := boolD impl "xsd"
-      let vi := boolD impl "vi" true
-      let path := if ok then (if strict then "doc/valid" else "doc/valid-unconstrained") else "doc/invalid/" ++ err
-      let specImpl := if strict then specDoc S t xsd vi else true
-      let why := if specImpl then "" else
-        (if !ok then "Lean validator: " ++ err else if !xsd then "xmlschema rejects: " ++ strD impl "xsd_err" else "valid_instance rejects: " ++ strD impl "vi_err")
-      Json.mkObj [("model", Json.mkObj [("valid", ok)]), ("path", path), ("err", err),
-        ("spec_model", !strict || ok), ("spec_impl", specImpl), ("why", why)]
+  | "doc" => docAns I impl
+  | "hist" =>
+    -- a history of calls on one entity: every emitted document judged like a `doc` case
+    let answers := (arrD impl "docs").map (docAns I)
+    let valids := answers.map fun a => ((obj? a "model").getD Json.null).getObjValD "valid"
+    let bad := answers.filter fun a => !(boolD a "spec_impl" true)
+    let firstInvalid := answers.find? fun a => (strD a "path").startsWith "doc/invalid" || strD a "path" == "doc/unserialisable"
+    let path := match firstInvalid with
+      | some a => "hist/" ++ (strD a "path").drop 4
+      | none => if answers.all (fun a => strD a "path" == "doc/refused") then "hist/all-refused" else "hist/all-valid"
+    Json.mkObj [("model", Json.mkObj [("valid", jarr valids)]), ("path", path),
+      ("spec_model", answers.all fun a => boolD a "spec_model" true), ("spec_impl", bad.isEmpty),
+      ("why", match bad.head? with | some a => Json.str ("step output: " ++ strD a "why") | none => "")]
   | "order" =>
     let label := strD c "cls"
     let counts := natList c "counts"
